@@ -9,6 +9,8 @@ preconditions named in the anchors:
  R2  at the wake kick the kick offsets are fresh with respect to the grid they are applied to
      (freshness typestate shared with C10): a wake-map update lies between the last change of
      the grid and the application, computed from a fresh X projection;
+ R4  the RF focusing and the drift that the wake is balanced against have the slope, sign and centre decided
+     under C03 (R1, R3), re-evaluated here: the Haissinski relation has its q^2/2 term centred on the zero bin;
  R3  the wake offsets are the field's wake potential copied without arithmetic (sign and strength
      preserved), in energy-cell units through the scaling normal form proved under C06/R4; wake
      and RF kick go through the same KickMap machinery with the same kick axis.
@@ -114,5 +116,13 @@ def run(chk, prog):
     chk.check(fld == {"wake_field"}, "R3", mainf.where, "the wake map takes its potential from the wake field (not the radiation field): %s" % sorted(fld), "wkm:_field:%s" % sorted(fld))
     chk.check(mm.member_var("wake_field", "_phasespace") == {"grid_t1"} or mm.resolve_path("wake_field", "this._phasespace") == {"grid_t1"}, "R3", mainf.where,
               "the wake field computes the potential from grid_t1, the grid the wake kick reads", "wake_field:_phasespace")
+    # ---- R4: RF focusing the wake is balanced against (slope, centre, drift slope: decided under C03) -----------------
+    from . import C03 as c03
+    sub = type(chk)("C03", chk.tier)
+    c03.run(sub, prog)
+    r = [i for i in sub.instances if i["rule"] in ("R1", "R3")]
+    for i in r:
+        chk.check(i["ok"], "R4", i["site"], "(C03/%s) %s" % (i["rule"], i["what"].split("\n")[0][:220]), "C03-%s:%s" % (i["rule"], i.get("key", "ok")))
+    chk.floor("R4-rf-drift-conditions", len(r), 8)
     chk.notes.append("C05: step order and grid chaining from the constructor bindings, freshness of the wake offsets at the kick, copy-without-arithmetic. "
                      "NOT decided: that the stationary profile satisfies the Haissinski relation.")
